@@ -1,2 +1,238 @@
+import FpgoVerif.Proofs.C12Sys
 import FpgoVerif.Model.C12
-/-! Property theorems for C12 (none yet). -/
+import FpgoVerif.Gen.Skeletons
+import FpgoVerif.Gen.MailboxFacts
+/-! Property theorems for C12 — "Handler and Actor mailboxes run work serially, exactly once, in per-sender
+    order".  All statements are about `C12.step` / `C12.sysStep`, the functions the driver executes, and hold
+    for every capacity `cap`, every family of sender scripts (any number of senders, any message counts) and
+    every schedule (`Reach` = all finite sequences of enabled atoms, a `Close` at any point included). -/
+namespace FpgoVerif.C12
+
+/-! ## one mailbox -/
+
+/-- Conservation: at every moment, what sender `i` had accepted (run, running or buffered, in that order),
+    then what was dropped because of `Close`, then the message it is just submitting, then what it has not
+    submitted yet, is exactly its script — nothing lost, duplicated, invented or reordered. -/
+theorem C12_conservation {cap script s} (ho : OwnedScript script) (h : Reach cap script s) (i : Nat) :
+    proj i (s.done ++ s.running ++ s.ch) ++ proj i s.dropped ++ optl (s.cur i) ++ s.pending i = script i :=
+  (reach_inv ho h).cons i
+
+/-- Per-sender FIFO: the calls started for sender `i` (finished ones in completion order, then the running
+    one) are a prefix of its script. -/
+theorem C12_per_sender_order {cap script s} (ho : OwnedScript script) (h : Reach cap script s) (i : Nat) :
+    proj i (s.done ++ s.running) <+: script i :=
+  (reach_inv ho h).started_prefix i
+
+/-- Exactly once: no message is ever run twice, nor run and dropped, nor buffered twice. -/
+theorem C12_exactly_once {cap script s} (ho : OwnedScript script) (hn : ∀ i, (script i).Nodup)
+    (h : Reach cap script s) : (s.done ++ s.running ++ s.ch ++ s.dropped).Nodup :=
+  (reach_inv ho h).nodup hn
+
+/-- Nothing runs that was not submitted. -/
+theorem C12_no_phantom {cap script s} (ho : OwnedScript script) (h : Reach cap script s) {j : Job}
+    (hj : j ∈ s.done ++ s.running ++ s.ch ++ s.dropped) : j ∈ script j.sender :=
+  (reach_inv ho h).no_phantom hj
+
+/-- Serial: never two calls in progress on one mailbox. -/
+theorem C12_serial {cap script s} (ho : OwnedScript script) (h : Reach cap script s) : s.running.length ≤ 1 :=
+  (reach_inv ho h).serial
+
+/-- Without a `Close` nothing is dropped, and once every sender is through and the mailbox is drained every
+    script has been run completely, in order. -/
+theorem C12_all_delivered {cap script s} (ho : OwnedScript script) (h : Reach cap script s)
+    (hf : s.flag = false) : s.dropped = [] ∧
+      ((∀ i, s.pending i = [] ∧ s.cur i = none) → s.ch = [] → s.running = [] → ∀ i, proj i s.done = script i) := by
+  have hi := reach_inv ho h
+  refine ⟨(hi.noClose hf).1, fun hq hch hr i => ?_⟩
+  have := hi.cons i
+  rw [(hi.noClose hf).1, hch, hr, (hq i).1, (hq i).2] at this
+  simpa [optl] using this
+
+/-- Work submitted once `Close` has set the flag — in particular after `Close` has returned — is dropped:
+    the closed-check atom moves the message to `dropped` and touches neither channel nor consumer. -/
+theorem C12_after_close_dropped {cap s t} (i : Nat) (hf : s.flag = true)
+    (hs : step cap s (.check i) = some t) :
+    t.ch = s.ch ∧ t.running = s.running ∧ t.done = s.done ∧ t.cur = s.cur ∧
+      ∃ j, s.pending i = j :: t.pending i ∧ t.dropped = s.dropped ++ [j] := by
+  simp only [step] at hs
+  split at hs
+  · next hc hp =>
+    simp only [hf, if_true] at hs
+    cases hs
+    exact ⟨rfl, rfl, rfl, rfl, _, by simpa using hp, rfl⟩
+  · cases hs
+
+/-- `Close` has returned (channel closed) implies the flag is set, so `C12_after_close_dropped` applies. -/
+theorem C12_close_returned_flag {cap script s} (ho : OwnedScript script) (h : Reach cap script s)
+    (hc : s.chClosed = true) : s.flag = true :=
+  (reach_inv ho h).closedFlag hc
+
+/-- A dropped message never runs (and is never buffered). -/
+theorem C12_dropped_never_runs {cap script s} (ho : OwnedScript script) (hn : ∀ i, (script i).Nodup)
+    (h : Reach cap script s) {j : Job} (hj : j ∈ s.dropped) : j ∉ s.done ++ s.running ++ s.ch := by
+  have := (reach_inv ho h).nodup hn
+  exact fun hm => (List.nodup_append.mp this).2.2 j hm j hj rfl
+
+/-- No deadlock: as long as any message is unsubmitted, in flight, buffered or running, some atom of a
+    sender or of the consumer (not of `Close`) is enabled. -/
+theorem C12_progress {cap script s} (ho : OwnedScript script) (h : Reach cap script s)
+    (hw : (∃ i, s.pending i ≠ [] ∨ s.cur i ≠ none) ∨ s.ch ≠ [] ∨ s.running ≠ []) :
+    ∃ a, a ≠ Act.closeFlag ∧ a ≠ Act.closeCh ∧ (step cap s a).isSome = true :=
+  (reach_inv ho h).progress hw
+
+/-- The consumer only leaves its loop after `Close`, with the buffer drained and no call in progress: every
+    accepted message was run. -/
+theorem C12_drained_at_exit {cap script s} (ho : OwnedScript script) (h : Reach cap script s)
+    (he : s.exited = true) : s.chClosed = true ∧ s.ch = [] ∧ s.running = [] :=
+  (reach_inv ho h).exitedQ he
+
+/-! ## actors: self argument, spawn tree, independence -/
+
+/-- An actor's effect always receives the actor itself. -/
+theorem C12_self {script s} (h : SReach script s) : ∀ e ∈ s.effLog, e.2.1 = e.1 := sreach_self h
+
+/-- GetParent and GetChild agree: once its `Spawn` call has returned (or for an actor made by `New`),
+    `c.parent = p` iff `c` is in `p.children`. -/
+theorem C12_tree_agree {script s} (h : SReach script s) (c p : Nat) (hc : s.stage c = 3) :
+    s.parent c = some p ↔ c ∈ s.children p := by
+  have hi := sreach_treeInv h
+  constructor
+  · intro hp
+    cases ho : s.origin c with
+    | none => rw [(hi.rootP c ho).1] at hp; cases hp
+    | some pc =>
+      obtain ⟨p', cs⟩ := pc
+      rcases (hi.st c p' cs ho).2.2.2 hc with h1 | h1
+      · rw [h1.1] at hp; cases hp; exact h1.2.1
+      · rw [h1.1] at hp; cases hp
+  · intro hk
+    obtain ⟨⟨cs, ho⟩, _⟩ := hi.kids p c hk
+    rcases (hi.st c p cs ho).2.2.2 hc with h1 | h1
+    · exact h1.1
+    · exact absurd hk h1.2.1
+
+/-- Spawn on a parent that was already closed when the call began never registers the child. -/
+theorem C12_spawn_closed_parent {script s} (h : SReach script s) {c p : Nat}
+    (ho : s.origin c = some (p, true)) : s.parent c = none ∧ ∀ q, c ∉ s.children q := by
+  have hi := sreach_treeInv h
+  have hs := hi.st c p true ho
+  have hnk : ∀ q, q ≠ p → c ∉ s.children q := fun q hq hk => by
+    obtain ⟨⟨cs, ho'⟩, _⟩ := hi.kids q c hk
+    rw [ho] at ho'; cases ho'; exact hq rfl
+  have hle := hi.stageLe c
+  have key : s.parent c = none ∧ c ∉ s.children p := by
+    rcases Nat.lt_or_ge (s.stage c) 1 with h0 | h1
+    · have : s.stage c = 0 := by omega
+      exact ⟨(hs.1 this).1, (hs.1 this).2.1⟩
+    · rcases Nat.lt_or_ge (s.stage c) 2 with h1' | h2
+      · have : s.stage c = 1 := by omega
+        exact absurd (hs.2.1 this).2.2 (by simp)
+      · rcases Nat.lt_or_ge (s.stage c) 3 with h2' | h3
+        · have : s.stage c = 2 := by omega
+          exact absurd (hs.2.2.1 this).2.2 (by simp)
+        · have : s.stage c = 3 := by omega
+          rcases hs.2.2.2 this with h' | h'
+          · exact absurd h'.2.2 (by simp)
+          · exact ⟨h'.1, h'.2.1⟩
+  refine ⟨key.1, fun q => ?_⟩
+  by_cases e : q = p
+  · subst e; exact key.2
+  · exact hnk q e
+
+/-- Spawn on a parent that is still open when the call returns registered the child under it. -/
+theorem C12_spawn_open_parent {script s} (h : SReach script s) {c p : Nat} {cs : Bool}
+    (ho : s.origin c = some (p, cs)) (hc : s.stage c = 3) (hf : (s.mb p).flag = false) :
+    s.parent c = some p ∧ c ∈ s.children p := by
+  have hi := sreach_treeInv h
+  rcases (hi.st c p cs ho).2.2.2 hc with h1 | h1
+  · exact ⟨h1.1, h1.2.1⟩
+  · rw [hf] at h1; exact absurd h1.2.2 (by simp)
+
+/-- Actors are independent mailboxes: every actor of any system (spawned or not, whatever happens to its
+    parent) satisfies all the single-mailbox theorems for its own scripts … -/
+theorem C12_actor_mailboxes {script s} (ho : ∀ a, OwnedScript (script a)) (h : SReach script s) (a i : Nat) :
+    proj i ((s.mb a).done ++ (s.mb a).running) <+: script a i ∧ (s.mb a).running.length ≤ 1 ∧
+    proj i ((s.mb a).done ++ (s.mb a).running ++ (s.mb a).ch) ++ proj i (s.mb a).dropped ++
+      optl ((s.mb a).cur i) ++ (s.mb a).pending i = script a i :=
+  have hi := sreach_mbInv ho h a
+  ⟨hi.started_prefix i, hi.serial, hi.cons i⟩
+
+/-- … and a step of the system changes at most one mailbox, by one atom of that mailbox (closing a parent or
+    spawning does not touch any other actor's mailbox). -/
+theorem C12_actor_frame {s t} (x : SAct) (h : sysStep s x = some t) (a : Nat) :
+    t.mb a = s.mb a ∨ ∃ y, step (s.cap a) (s.mb a) y = some (t.mb a) := sysStep_mb x h a
+
+/-! ## non-vacuity: the hypotheses are satisfiable by non-trivial reachable states -/
+
+def demoScript (i : Nat) : List Job := if i < 2 then [⟨i, 0⟩, ⟨i, 1⟩] else []
+
+theorem demo_owned : OwnedScript demoScript := by
+  intro i j hj
+  unfold demoScript at hj
+  split at hj
+  · simp at hj; rcases hj with rfl | rfl <;> rfl
+  · cases hj
+
+theorem demo_nodup : ∀ i, (demoScript i).Nodup := by
+  intro i; unfold demoScript; split <;> simp [Job.mk.injEq]
+
+/-- two senders, capacity 1, a Close racing a parked Post: one message done, one running, one buffered … and
+    the parked one dropped by the recovered send-on-closed panic -/
+example : ∃ s, Reach 1 demoScript s ∧ s.done = [⟨0, 0⟩] ∧ s.running = [⟨1, 0⟩] ∧ s.ch = [⟨0, 1⟩] ∧
+    s.dropped = [⟨1, 1⟩] ∧ s.flag = true :=
+  ⟨_, reach_of_run [.check 0, .send 0, .recv, .check 1, .send 1, .finish, .recv, .check 0, .send 0, .check 1,
+                    .closeFlag, .closeCh, .send 1] rfl, rfl, rfl, rfl, rfl, rfl⟩
+
+/-- rendez-vous (capacity 0) hand-off and the exit of the consumer after Close -/
+example : ∃ s, Reach 0 demoScript s ∧ s.done = [⟨0, 0⟩] ∧ s.exited = true :=
+  ⟨_, reach_of_run [.check 0, .send 0, .finish, .closeFlag, .closeCh, .exit] rfl, rfl, rfl⟩
+
+/-- a spawn tree: root 0, child 1 registered, root closed, child 2 unregistered, child 1 still serving -/
+example : ∃ s, SReach (fun _ => demoScript) s ∧ s.parent 1 = some 0 ∧ s.children 0 = [1] ∧ s.parent 2 = none ∧
+    s.origin 2 = some (0, true) ∧ (s.mb 1).done = [⟨0, 0⟩] ∧ s.effLog = [(1, 1, ⟨0, 0⟩)] :=
+  ⟨_, sreach_of_run [.newRoot 0, .spawnNew 0, .spawnCheck 1, .spawnSetParent 1, .spawnSetChild 1,
+        .mb 0 .closeFlag, .mb 0 .closeCh, .spawnNew 0, .spawnCheck 2, .mb 1 (.check 0), .mb 1 (.send 0),
+        .mb 1 .finish] rfl, rfl, rfl, rfl, rfl, rfl, rfl⟩
+
+/-! ## the tie: protocol skeletons and facts regenerated from the repository on every run -/
+
+theorem C12_skel_Handler_Post : Gen.skeletonOf "HandlerDef.Post" =
+    some "if[get(isClosed) call(isClosed.Get)]{return} defer{call(recover)} send(ch)" := by decide
+theorem C12_skel_Handler_Close : Gen.skeletonOf "HandlerDef.Close" =
+    some "get(isClosed) call(isClosed.Set) call(close)" := by decide
+theorem C12_skel_Handler_run : Gen.skeletonOf "HandlerDef.run" = some "rangech(ch){callfn(fn)}" := by decide
+theorem C12_skel_Handler_New : Gen.skeletonOf "HandlerDef.New" = some "call(NewByCh) return" := by decide
+theorem C12_skel_Handler_NewByCh : Gen.skeletonOf "HandlerDef.NewByCh" = some "go{call(run)} return" := by decide
+theorem C12_skel_Actor_Send : Gen.skeletonOf "ActorDef.Send" =
+    some "if[get(isClosed) call(isClosed.Get)]{return} defer{call(recover)} send(ch)" := by decide
+theorem C12_skel_Actor_Close : Gen.skeletonOf "ActorDef.Close" =
+    some "get(isClosed) call(isClosed.Set) call(close)" := by decide
+theorem C12_skel_Actor_run : Gen.skeletonOf "ActorDef.run" = some "rangech(ch){callfn(effect)}" := by decide
+theorem C12_skel_Actor_Spawn : Gen.skeletonOf "ActorDef.Spawn" =
+    some "call(New) if[get(isClosed) call(isClosed.Get)]{return} set(parent) set(children) return" := by decide
+theorem C12_skel_Actor_New : Gen.skeletonOf "ActorDef.New" = some "call(ActorNewGenerics) return" := by decide
+theorem C12_skel_Actor_NewByOptions : Gen.skeletonOf "ActorDef.NewByOptions" =
+    some "call(ActorNewByOptionsGenerics) return" := by decide
+theorem C12_skel_ActorNewGenerics : Gen.skeletonOf "ActorNewGenerics" =
+    some "call(ActorNewByOptionsGenerics) return" := by decide
+theorem C12_skel_ActorNewByOptionsGenerics : Gen.skeletonOf "ActorNewByOptionsGenerics" =
+    some "go{call(run)} return" := by decide
+theorem C12_skel_Actor_GetParent : Gen.skeletonOf "ActorDef.GetParent" = some "get(parent) return" := by decide
+theorem C12_skel_Actor_GetChild : Gen.skeletonOf "ActorDef.GetChild" = some "get(children) return" := by decide
+theorem C12_skel_Actor_IsClosed : Gen.skeletonOf "ActorDef.IsClosed" =
+    some "get(isClosed) call(isClosed.Get) return" := by decide
+
+/-- `run` is started in exactly two places, each time as one goroutine by a constructor: one consumer per mailbox. -/
+theorem C12_fact_one_consumer : Gen.mailboxRunCalls =
+    [("ActorNewByOptionsGenerics", "go"), ("HandlerDef.NewByCh", "go")] := by decide
+
+/-- the posted function / the effect is called synchronously inside the receive loop, the effect with the
+    receiver itself and the received message -/
+theorem C12_fact_effect_args : Gen.mailboxEffectCalls =
+    [("HandlerDef.run", "call", ["callee=received"]), ("ActorDef.run", "call", ["self", "received"])] := by decide
+
+/-- the only `close` of a mailbox channel is the one in `Close` -/
+theorem C12_fact_closes : Gen.mailboxCloses =
+    [("HandlerDef.Close", "body", "ch"), ("ActorDef.Close", "body", "ch")] := by decide
+
+end FpgoVerif.C12
